@@ -163,7 +163,12 @@ class TreeSpec(Spec):
                 elif os.path.isdir(got) and '__main__' not in nm and nm.count('.') <= 1:
                     # a package: by its directory and by its __init__.py file - both are "the module of that name"
                     targets += [got, os.path.join(got, '__init__.py')]
-                for target in targets:
+                for target, pre in [(t, p) for t in targets for p in (False, True)]:
+                    # pre: the directory that has to be on the search path is there already (the caller put it in front);
+                    # it must still be there - once, in front - afterwards
+                    outer = list(sys.path)
+                    if pre:
+                        sys.path.insert(0, root)
                     before = list(sys.path)
                     top = nm.split('.')[0]
                     try:
@@ -182,8 +187,10 @@ class TreeSpec(Spec):
                         atoms.append({'sig': 'import:raises:' + type(ex).__name__, 'msg': '%s: %r' % (nm, ex)})
                     finally:
                         if sys.path != before:
-                            atoms.append({'sig': 'import:sys.path-changed', 'msg': '%r' % ([p for p in sys.path if p not in before],)})
-                            sys.path[:] = before
+                            atoms.append({'sig': 'import:sys.path-changed' + (':directory-already-on-sys.path' if pre else ''),
+                                          'msg': 'added %r, removed %r' % ([p for p in sys.path if p not in before], [p for p in before if p not in sys.path] or
+                                                                           ('an entry moved' if sorted(sys.path) == sorted(before) else 'a duplicate'))})
+                        sys.path[:] = outer
                         harness.forget_modules(top)
         seen = set()
         uniq = []
